@@ -2073,7 +2073,10 @@ class TargetRegistry:
         ret = False
         obj_type = type(obj)
         cache_key = (obj_type, op)
-        if cache_key not in self._type_cache:
+        # (this memo only: register() starts a new one, and an answer worked
+        # out from the registrations before it must not land in that)
+        type_cache = self._type_cache
+        if cache_key not in type_cache:
             type_map = self.get_type_map(op)
             if type_map:
                 try:
@@ -2087,9 +2090,9 @@ class TargetRegistry:
                         ret = type_map[closest]
 
             if ret is not False or not raise_exc:  # (as before: a lookup that raises is not memoised)
-                self._type_cache[cache_key] = ret
+                type_cache[cache_key] = ret
         else:
-            ret = self._type_cache[cache_key]
+            ret = type_cache[cache_key]
 
         # (outside the memo: "no handler", learned with raise_exc=False,
         # is an UnregisteredTarget for the next caller that asks for one)
@@ -2106,7 +2109,9 @@ class TargetRegistry:
     def _get_closest_type(self, obj, type_tree):
         default = None
         mro = type(obj).__mro__
-        for cur_type, sub_tree in type_tree.items():
+        # (a copy: isinstance() may run user code, and a register() call made
+        # from there, or from another thread, re-shapes the tree)
+        for cur_type, sub_tree in list(type_tree.items()):
             if isinstance(obj, cur_type):
                 sub_type = self._get_closest_type(obj, type_tree=sub_tree)
                 ret = cur_type if sub_type is None else sub_type
